@@ -363,7 +363,3 @@ def run(ctx: core.Ctx) -> core.Report:
                           {"datagram": hx(data), "mutation": k})
     return rep
 
-
-def replay(ctx, data):
-    print(data)
-    return 0
